@@ -264,7 +264,9 @@ def do_check(a):
     conf = conf_async.get()
     pp.close()
     sres = s_async.get()
-    d_async = sp.map_async(_w_concrete, cjobs, chunksize=1)  # differential: instrumented, same seeds
+    blevel = {p["name"] for p in proofs if p["level"] == "B"}
+    # differential: instrumented package on the same concrete inputs (only for proofs that have a symbolic part)
+    d_async = sp.map_async(_w_concrete, [j for j in cjobs if j[0] not in blevel], chunksize=1)
     dres = d_async.get()
     sp.close()
 
